@@ -123,7 +123,17 @@ META = {
     "LIMIT of the code as it is, compared with the fake service paging by 2 / 3, recorded, not judged.  (d) thorough "
     "tier: four first writes in both variants with context switches at the lock and the create call; the evidence "
     "notes list every interleaving class enumerated exhaustively (with its switch points and count) and every class "
-    "only sampled.  (e) MultiPartUpload.read(**kw) judged by an argument / result oracle.",
+    "only sampled.  (e) MultiPartUpload.read(**kw) judged by an argument / result oracle.  Final increment: "
+    "local_once_with_crashes (Local.crash / Ev / runEv, crash_inv over all program points: an exception anywhere but "
+    "between the service's answer and `self.uploadId = ...` keeps local_once; local_crash_in_window_cex), tied with "
+    "Dist.crash by the crash-event stream (driver crashev: a thread dies parked at each of its external operations in "
+    "turn, 84 cases, oracle outside the window); byte-granular sink crash (Sink.finaliseCrashBytes, "
+    "sink_crash_bytes_prefix: destination always a prefix, the interrupted and all later parts on disk); PROCESS KILL "
+    "during finalise (Sink.finaliseKill): the code as found unlinks a part while its bytes are still in the process's "
+    "write buffer - known finding K26, key sink:kill-loses-bytes-of-unlinked-part, sink_kill_loses_buffered_bytes_cex, "
+    "observed by forking a child that dies with os._exit at the next part; repaired on branch fix3-C18 (flush before "
+    "unlink; sink_kill_keeps_all_bytes); one probe run picks the proven variant, the oracle is independent of it; the "
+    "cut-append stream is driven on trees that flush per part.",
     "note": "Trusted: Lean kernel + {propext, Classical.choice, Quot.sound}; the fakes at the client boundary "
     "(S3 client, distributed.get_client/Variable/Lock, the module dict _s3._state and the Lock constructor "
     "_s3.Lock, the open/Path names seen by _mpu_fs under the short-write fault model, an observable uploadId "
@@ -1663,6 +1673,45 @@ def sink_crash_cases(R: Run, root: Path):
                     R.count("sink-crash:retry:" + str(st.get("retry")))
 
 
+def crash_event_cases(R: Run):
+    """a thread dies at EVERY position of its own run (parked at each of its external operations in turn), the other
+    thread then runs to the end: models Local.crash / Dist.crash (local_once_with_crashes, dist_once_with_crashes; the
+    cluster thread parked at `vset` is inside the publication window: correspondence only there)"""
+    from . import c18_sched as S
+
+    for variant, workers in (("local", None), ("dist", [0, 1]), ("dist", [0, 0])):
+        for victim in (0, 1):
+            other = 1 - victim
+            for before in (0, 1):           # steps of the other thread ahead of the victim
+                for n in range(1, 8):       # the victim dies after n scheduler steps of its own
+                    events = [str(other)] * before + [str(victim)] * n + [f"c{victim}"] + [str(other)] * 12
+                    out: Dict[str, Any] = {}
+
+                    def real():
+                        sm = S.run_events(["w1", "w2"], workers, events)
+                        o = S.observe(sm)
+                        out.update(o)
+                        return o["xtext"]
+
+                    line = (f"c18 crashev local [w1,w2] {list_s(events)}" if workers is None else
+                            f"c18 crashev dist [w1,w2] {list_s(workers)} {list_s(events)}")
+                    R.corr(line, real, sig=f"crash-event|{variant}|{workers}")
+                    if not out:
+                        continue
+                    labels = out["xtext"].split(" ; ")[0].split(",")
+                    idx = labels.index(f"{victim}:crash")
+                    mine = [l for l in labels[:idx] if l.startswith(f"{victim}:")]
+                    in_window = variant == "dist" and bool(mine) and mine[-1].endswith("create")
+                    if in_window or out["outcomes"][victim] != "Killed":
+                        continue  # parked at vset: the publication window (a `_cex`); or the victim had already returned
+                    case = {"variant": variant, "workers": workers, "events": events}
+                    ok = out["outcomes"][other] == "ok" and out["ncreate"] == 1 and len(set(out["used_ids"])) <= 1 and \
+                        out["lock"] is None
+                    R.oracle(ok, f"{variant}:crash-outside-window-breaks-the-protocol", case,
+                             f"outcomes {out['outcomes']}, uploads created {out['ids']}, ids used {out['used_ids']}, lock "
+                             f"{out['lock']} ({out['xtext'][:300]})")
+
+
 def paging_cases(R: Run):
     """`cancel("all")` against a service that lists `page` uploads per request (S3: 1000) while `n` orphaned uploads of
     the key are active - `list_active` does not follow the continuation markers (model cancelAllPagedN,
@@ -1687,6 +1736,174 @@ def paging_cases(R: Run):
                      {"page": page, "active": n, "calls": m}, f"{out}")
         elif out:
             R.count(f"paged-cancel:left-active:{len(out['active'])}-of-{n}")
+
+
+# ------------------------------------------------------------------ the process is KILLED during finalise; a cut append
+K26_KEY = "sink:kill-loses-bytes-of-unlinked-part"
+
+
+class _BudgetRaw(io.FileIO):
+    """raw file that takes `budget` more bytes in total, then fails for good (disk error / signal): the append of a
+    part is cut in the middle"""
+    budget = 0
+    dead = False
+
+    def write(self, b):
+        cls = type(self)
+        mv = memoryview(b).cast("B")
+        if cls.dead or cls.budget <= 0:
+            cls.dead = True
+            raise Killed_()
+        n = min(len(mv), cls.budget)
+        cls.budget -= n
+        super().write(mv[:n])
+        if n < len(mv):
+            cls.dead = True
+            raise Killed_()
+        return n
+
+
+def _kill_run(writes, plist, k: int):
+    """write the parts here, then fork: the CHILD runs `finalise` and dies (os._exit: no unwinding, nothing flushed) at
+    the moment it turns to listed part k+1; returns (destination content, parts left) as the parent finds them"""
+    from odc.geo.cog import _mpu_fs
+
+    old_path = getattr(_mpu_fs, "Path", None)
+    if old_path is None or not (isinstance(old_path, type) and issubclass(type(Path()), old_path)):
+        return None
+    work = Path(tempfile.mkdtemp(prefix="c18-kill-"))
+    try:
+        dst = work / "out.bin"
+        sink = _mpu_fs.MPUFileSink(dst)
+        recs = {p: sink(p, d.encode()) for p, d in writes}
+        pdir = Path(recs[plist[0]]["Path"]).parent
+        pid = os.fork()
+        if pid == 0:  # child
+            try:
+                class KillPath(type(Path())):
+                    n = 0
+
+                    def _tick(self):
+                        if KillPath.n == k:
+                            os._exit(7)
+                        KillPath.n += 1
+
+                    def rename(self, target):
+                        self._tick()
+                        return super().rename(target)
+
+                    def stat(self, *a, **kw):
+                        self._tick()
+                        return super().stat(*a, **kw)
+
+                _mpu_fs.Path = KillPath
+                sink.finalise([recs[p] for p in plist])
+            finally:
+                os._exit(0)
+        _, status = os.waitpid(pid, 0)
+        content = dst.read_bytes().decode() if dst.is_file() else None
+        left = parts_left(pdir, recs) if pdir.is_dir() else []
+        return {"content": content, "left": left, "dir": pdir.is_dir(), "killed": os.WEXITSTATUS(status) == 7}
+    finally:
+        shutil.rmtree(work, ignore_errors=True)
+
+
+def sink_kill_cases(R: Run, root: Path):
+    """(1) the process is killed after k parts were appended and unlinked (model Sink.finaliseKill; as found the bytes
+    of parts below the io buffer size are lost: known finding K26, sink_kill_loses_buffered_bytes_cex; repaired:
+    sink_kill_keeps_all_bytes) - one probe run decides which of the two proven variants the tree has, the oracle does not
+    depend on it.  (2) the append of a part is cut after j bytes (model Sink.finaliseCrashBytes,
+    sink_crash_bytes_prefix) - driven when the tree flushes per part (otherwise the bytes of several parts leave the
+    process in one write at close and the cut is not part-aligned: covered by K26)."""
+    from odc.geo.cog import _mpu_fs
+
+    rng = R.rng
+    probe_w, probe_l = [(1, "AAAA"), (2, "bbb"), (3, "cc")], [1, 2, 3]
+    pr = _kill_run(probe_w, probe_l, 2)
+    if pr is None or not pr["killed"]:
+        R.notes.append("sink kill stream skipped: finalise does not go through Path.rename / Path.stat")
+        return
+    flushed = pr["content"] == "AAAAbbb"
+    fl = "T" if flushed else "F"
+
+    def fmt(o):
+        return (f"dst{'N' if o['content'] is None else '=' + o['content']} ; "
+                f"parts={list_s([f'{p}:{d}' for p, d in o['left']])} ; dir={'T' if o['dir'] else 'F'}")
+
+    R.corr(f"c18 sinkkill {fl} {list_s([f'{p}:{d}' for p, d in probe_w])} {list_s(probe_l)} 2", lambda: fmt(pr),
+           sig=f"sink-kill|probe|flushed={flushed}")
+    whole = "AAAAbbbcc"
+    have = (pr["content"] or "") + "".join(d for _, d in pr["left"])
+    R.oracle(have == whole, K26_KEY, {"writes": probe_w, "parts": probe_l, "killed_after": 2},
+             f"K26: finalise killed after parts 1, 2 of {probe_l} were dealt with: destination {pr['content']!r}, part files left "
+             f"{pr['left']} - all data was {whole!r}")
+    for n in (2, 3, 4):
+        for k in range(1, n):
+            nums = list(range(1, n + 1))
+            writes = [(p, "".join(rng.choice(LETTERS) for _ in range(rng.choice([1, 2, 3])))) for p in nums]
+            plist = nums if (n + k) % 2 else nums[::-1]
+            o = _kill_run(writes, plist, k)
+            if o is None or not o["killed"]:
+                continue
+            R.corr(f"c18 sinkkill {fl} {list_s([f'{p}:{d}' for p, d in writes])} {list_s(plist)} {k}", lambda o=o: fmt(o),
+                   sig=f"sink-kill|k={k}|n={n}|flushed={flushed}")
+    if not flushed:
+        R.notes.append("cut-append stream (Sink.finaliseCrashBytes) not driven: this tree does not flush per part (K26)")
+        return
+    # (2) byte-granular: the raw destination file takes `budget` bytes of appended data, then fails for good
+    for n in (2, 3):
+        for k in range(1, n):
+            nums = list(range(1, n + 1))
+            writes = [(p, "".join(rng.choice(LETTERS) for _ in range(rng.choice([2, 3, 4])))) for p in nums]
+            last = dict(writes)
+            for j in sorted({0, 1, len(last[nums[k]]) - 1}):
+                work = Path(tempfile.mkdtemp(dir=root))
+                dst = work / "out.bin"
+                st: Dict[str, Any] = {}
+
+                def real():
+                    sink = _mpu_fs.MPUFileSink(dst)
+                    recs = {p: sink(p, d.encode()) for p, d in writes}
+                    pdir = Path(recs[nums[0]]["Path"]).parent
+
+                    def fopen(file, mode="r", buffering=-1, *a, **kw):
+                        if "a" in mode and "b" in mode:
+                            return io.BufferedWriter(_BudgetRaw(os.fspath(file), "a"))
+                        return builtins.open(file, mode, buffering, *a, **kw)
+
+                    _BudgetRaw.budget = sum(len(last[p]) for p in nums[1:k]) + j
+                    _BudgetRaw.dead = False
+                    had_open = "open" in vars(_mpu_fs)
+                    old_open = vars(_mpu_fs).get("open")
+                    _mpu_fs.open = fopen
+                    try:
+                        sink.finalise([recs[p] for p in nums])
+                        st["cut"] = False
+                    except Killed_:
+                        st["cut"] = True
+                    finally:
+                        if had_open:
+                            _mpu_fs.open = old_open
+                        else:
+                            del _mpu_fs.open
+                    content = dst.read_bytes().decode() if dst.is_file() else None
+                    left = parts_left(pdir, recs) if pdir.is_dir() else []
+                    st.update(content=content, left=left)
+                    return fmt({"content": content, "left": left, "dir": pdir.is_dir()})
+
+                out = guarded(real)
+                shutil.rmtree(work, ignore_errors=True)
+                if not st.get("cut"):
+                    R.notes.append("cut-append stream: the injected write failure did not fire (the destination is not "
+                                   "opened through the module's `open`): stream skipped")
+                    return
+                R.corr(f"c18 sinkcrashbytes {list_s([f'{p}:{d}' for p, d in writes])} {list_s(nums)} {k} {j}", lambda: out,
+                       sig=f"sink-cut-append|k={k}|j={j}")
+                whole = "".join(last[p] for p in nums)
+                R.oracle(whole.startswith(st.get("content") or "\0") and
+                         all((p, last[p]) in st.get("left", []) for p in nums[k:]), "sink:cut-append-not-a-prefix",
+                         {"writes": writes, "parts": nums, "complete": k, "bytes_of_next": j},
+                         f"destination {st.get('content')!r} (final content {whole!r}), part files left {st.get('left')}")
 
 
 # ------------------------------------------------------------------ limits
@@ -1823,6 +2040,7 @@ def run(R: Run):
         multi_sink_cases(R, root)
         sink_seq_cases(R, root)
         sink_crash_cases(R, root)
+        sink_kill_cases(R, root)
         paging_cases(R)
         seq_cases(R)
         up_cases(R)
@@ -1830,6 +2048,7 @@ def run(R: Run):
         upload_e2e(R)
         xnames = xproc_names(R, xh)
         xproc_real(R, xh)
+        crash_event_cases(R)
         schedules(R, xnames)
         SOFT.report(R)
     finally:
@@ -1916,6 +2135,15 @@ def replay(R: Run, rec) -> int:
         for f in hits[:3]:
             print("FAILS:", f["key"], "-", f["case"], "-", f["what"][:1200])
         return 1 if hits else 0
+    if key == K26_KEY:
+        o = _kill_run([tuple(w) for w in case["writes"]], case["parts"], case["killed_after"])
+        print("real :", o)
+        if not o:
+            return 0
+        whole = "".join(dict(tuple(w) for w in case["writes"])[p] for p in case["parts"])
+        have = (o["content"] or "") + "".join(d for _, d in o["left"])
+        print("all data:", repr(whole), "- destination + part files left:", repr(have))
+        return 0 if have == whole else 1
     if key == "sink:later-round-does-not-replace-destination":
         root = Path(tempfile.mkdtemp(prefix="c18-"))
         try:
